@@ -16,6 +16,14 @@ for p in props:
     if os.path.exists(os.path.join(d, 'manifest.json')):
         meta = json.load(open(os.path.join(d, 'manifest.json')))
     served.append(pid)
+    units = [u for u in spec.get('units', [])]
+    nn = [u['name'] for u in units if u.get('no_native')]
+    if not nn:
+        replay = 'every counterexample and every reachability witness is replayed natively against the real build (go test -overlay)'
+    elif len(nn) == len(units):
+        replay = 'counterexamples are engine-level: the units replace functions by stubs and have no native replay'
+    else:
+        replay = 'counterexamples and witnesses are replayed natively except for the stub-using units ' + ', '.join(nn)
     checks.append({
         'property_id': pid,
         'quick_cmd': './check %s --tier quick' % pid,
@@ -26,10 +34,10 @@ for p in props:
         'level_claimed': {
             'category': 'model_checking',
             'text': meta.get('text', 'Bounded symbolic model checking of the real code: ' + '; '.join(spec.get('bounds', []))),
-            'design_ref': meta.get('design_ref', 'DESIGN.md §5 ' + pid),
+            'design_ref': meta.get('design_ref', 'DESIGN.md Part A, section A.4, entry ' + pid),
         },
         'level_note': meta.get('note', 'Assumes: ' + '; '.join(spec.get('assumptions', []) or ['-']) + '. Trusted: ' + '; '.join(spec.get('trusted_base', [])) + '. Outside the claim: ' + '; '.join(spec.get('outside_claim', []) or ['-'])),
-        'technique': meta.get('technique', 'go/ssa symbolic execution of the real functions -> SMT (z3 bit-vectors), bounded; counterexamples replayed natively'),
+        'technique': meta.get('technique', 'solver-based bounded checking: go/ssa symbolic execution of the real functions (encoding regenerated from /repo on every run) -> SMT-LIB bit-vector queries decided by a z3/cvc5 portfolio; ' + replay),
     })
 nas = [x for x in na if x['property_id'] not in served]
 m = {
